@@ -79,7 +79,7 @@ CHECKS = {
             'exhaustive live inspection of every catalogued form instance, every (threshold table, status) lookup through Form.threshold, and CLI listings parsed back',
             'Every (year, class, allowed instance) is instantiated; tax year, unique name, metadata, duplicate-free lower-case dot-free input and line names are asserted on the '
             'live object; every status-keyed threshold table is looked up through the real Form.threshold for each of the five statuses and must have exactly one matching entry; '
-            '`list-forms` (with filters) and `list-form-inputs` for every form and instance are run in-process and the template is parsed back with ConfigParser.',
+            '`list-forms` (with filters) and `list-form-inputs` for every form and instance are run in-process and the template is parsed back with ConfigParser. Purpose-built returns are solved with every line of every participating form asked for while Form.threshold is wrapped: a look-up a line definition makes that raises is reported with its call site.',
             'Exhaustive over the catalogue as shipped; thresholds are captured from the argument each form passes to Form.__init__.',
             'DESIGN.md section 4, C17'),
     'C18': ('exploration',
@@ -87,7 +87,7 @@ CHECKS = {
             'All 1665 mappings: the target exists in the template, kinds agree, check-box export values for every value of the driving line are template export values, '
             'length limits agree, no field is mapped twice, exclusive groups have at most one box on for every value of the driving line, every fileable form has a template '
             'and mappings, every mapped line exists, and where the template\'s accessibility text (or NC field-name suffix) carries a line label in reading order the mapped line is that line. Fills of real solved '
-            'returns check groups whose boxes are driven by several lines (NC filing status, yes/no pairs). A number printed across two boxes (Form 8606 line 10) must read, for every value, as the value rounded to the decimals printed.',
+            'returns check groups whose boxes are driven by several lines (NC filing status, yes/no pairs). A number printed across two boxes (Form 8606 line 10) must read, for every value, as the value rounded to the decimals printed. Yes/No boxes are paired by their place in the template (widget rectangles) and must be driven by one line; a text of exactly the template limit is accepted whatever its characters, one more character refused.',
             'Trusts hv/pdfspec.py and a three-entry alias table; labels out of the template\'s own reading order are ignored and counted.',
             'DESIGN.md section 4, C18'),
     'C19': ('exploration',
@@ -165,7 +165,7 @@ CHECKS = {
             'statutory brackets and the IRS table layout. Quick: every table row at four points, every bracket edge and '
             'neighbours, 2000 log-uniform amounts to 1e12, all five statuses, three years. Thorough: every whole dollar in '
             '[0,100000) x 5 statuses x 3 years (exhaustive) plus 500000 sampled amounts above per year. The same postcondition wraps the name figure_tax as bound in the Form 1040 and capital-gain '
-            'worksheet modules while real returns are solved. Held = on those calls.',
+            'worksheet modules while real returns are solved (including returns whose line 11 - line 14 is one ulp below a table row boundary), and runs in a `python -O` child process (assertions off). Held = on those calls.',
             'Trusts hv/statutory.py (transcribed Rev. Proc. brackets) and the half-up rounding rule of the IRS tables.',
             'DESIGN.md section 4, C07'),
 }
